@@ -409,10 +409,15 @@ def trimNum : Bytes → Bytes
       | b :: r => if b == 101 || b == 69 || b == 45 || b == 43 then go r else b :: r
     (go pb.reverse).reverse
 
+/-- `digits[1] >= '0' && digits[1] <= '9'` on the rest of the text (NUL-terminated: false at its end) -/
+def startsWithDigit : Bytes → Bool
+  | d :: _ => isDigit d
+  | [] => false
+
 /-- classification of the saved number text: the block after the scanning loop -/
 def classifyNum (t : Tok) (pb : Bytes) : Except PErr JVal :=
   let digits := if pb.head? == some 45 then pb.drop 1 else pb
-  if t.strict && digits.head? == some 48 && (match digits.drop 1 with | d :: _ => isDigit d | [] => false) then
+  if t.strict && digits.head? == some 48 && startsWithDigit (digits.drop 1) then
     .error .number
   else if !t.isDouble && pb.head? == some 45 then
     match lc.parseInt64 pb with
